@@ -32,8 +32,13 @@ import importlib.util, sys
 sys.path.insert(0, H)
 from gscan import selftest as _st
 nm = sum(len(v.get('mutants', [])) for v in _st.VARIANTS.values())
-nr = sum(len(v.get('refactors', [])) for v in _st.VARIANTS.values()) + 7 * 20
+nr = sum(len(v.get('refactors', [])) for v in _st.VARIANTS.values()) + 8 * 20
 text = text.replace('@ENG@', f'{round(eng, -2):,}'.replace(',', ' ')).replace('@RUL@', f'{round(rul, -2):,}'.replace(',', ' '))
 text = text.replace('@NMUT@', str(nm)).replace('@NREF@', str(nr))
+b3 = {'n': '-', 'first': '-', 'now': '-'}
+b3p = os.path.join(H, 'benign3', 'RESULT.json')
+if os.path.exists(b3p):
+    b3 = json.load(open(b3p))
+text = text.replace('@B3N@', str(b3['n'])).replace('@B3FIRST@', str(b3['first'])).replace('@B3NOW@', str(b3['now']))
 open(os.path.join(H, 'DESIGN.md'), 'w').write(text)
 print('DESIGN.md', sum(len(x.splitlines()) for x in out), 'lines')
